@@ -399,6 +399,20 @@ theorem one_noise_session_per_connection :
        ("else", "noise.set_as_responder"), ("-", "DilatedConnectionProtocol")] := by
   decide
 
+/-- `DilatedConnectionProtocol`'s lifecycle / flow-control wrappers carry no logic of their own, which is what
+    `l2Lost`, `l2Pause`, `l2Resume` (identities) and `l2Data` (every token of a read is handled) say:
+    `pauseProducing` / `resumeProducing` only forward to the transport, `connectionLost` only fires the
+    observer, `dataReceived`'s loop has no early exit, and the parked-record queue is touched by nobody but
+    its initialiser, `queue_inbound_record` and `process_inbound_queue`.  Extracted by `ast` on every run. -/
+theorem flow_control_and_loss_pins :
+    Flags.dcp_flow_control_plain_and_reads_handled_whole = true ∧
+    Flags.dcp_inbound_queue_private = true ∧
+    Skel.skeleton "DilatedConnectionProtocol.pauseProducing" = [("-", "transport.pauseProducing")] ∧
+    Skel.skeleton "DilatedConnectionProtocol.resumeProducing" = [("-", "transport.resumeProducing")] ∧
+    Skel.skeleton "DilatedConnectionProtocol.connectionLost" = [("-", "_disconnected.fire")] ∧
+    Skel.skeleton "DilatedConnectionProtocol.process_inbound_queue" = [("while", "_manager.got_record")] := by
+  decide
+
 /-! ## end to end -/
 
 /-- For every list of well-formed records and EVERY chunking of the honest sender's byte stream
@@ -463,6 +477,19 @@ theorem end_to_end_select_anywhere (cfg : L2Cfg) (hN : cfg.noise.Ideal) (relay l
       simp only at hrecs ⊢
       rw [feed_sel cfg cs2 fr1 u1 hd1, hfa]
       exact ⟨_, rfl, hrecs, rfl, rfl, hbuf⟩
+
+/-- … and the connection may be paused, resumed and even LOST between the last byte and `select` (the
+    Connector's `accept` runs an eventual turn after the KCM arrived; the peer may have hung up by then):
+    `select` still hands the manager every record that was received, in order. -/
+theorem end_to_end_lost_before_select (cfg : L2Cfg) (hN : cfg.noise.Ideal) (relay ld : Bool) (hs : Bytes)
+    (hok : cfg.handshakeOK hs = true) (recs : List Rec)
+    (hwf : ∀ r ∈ recs, r.wf cfg.validUtf8 ∧ r ≠ .kcm)
+    (stream : Bytes) (hst : honestStream cfg relay hs recs = some stream)
+    (cs : List Bytes) (hcs : cs.flatten = stream) :
+    ∃ s s', l2Feed cfg (l2Init relay ld) cs = (s, none) ∧
+      l2Select (l2Lost (l2Resume (l2Pause s))) = .ok s' ∧ s'.up.toManager = recs ∧ s'.up.queued = [] := by
+  obtain ⟨s, s', h1, _, _, _, h2, h3, h4, _⟩ := end_to_end cfg hN relay ld hs hok recs hwf stream hst cs hcs
+  exact ⟨s, s', h1, h2, h3, h4⟩
 
 /-- non-vacuity of the hypotheses of `end_to_end_select_anywhere`: such `s1`, `s1'` exist -/
 example (cfg : L2Cfg) (hN : cfg.noise.Ideal) (relay ld : Bool) (hs : Bytes)
